@@ -124,6 +124,9 @@ func runC16(r *Report) {
 		}
 		for _, cs := range calls {
 			ci, ok := cs.(ssa.Instruction)
+			if ok && callContradicts(cs, in) {
+				continue
+			}
 			if !ok || !flagKnownIP(ci, want, depth+1) {
 				return false
 			}
@@ -177,19 +180,20 @@ func runC16(r *Report) {
 			if v == 0 {
 				msg = "protocol.Choke"
 			}
-			wrote := false
-			for _, g := range guardsOf(c.Block()) {
-				g = g.norm()
+			// (in this function, or — for a private helper of unchoke such as setUnchoking(peer, on) — at every call
+			// of it that can take this branch)
+			wrote := p.guardedIP(c, func(g Guard) bool {
 				bo, ok := g.Cond.(*ssa.BinOp)
 				if !ok || !isNilConst(bo.Y) || !((bo.Op == token.EQL && g.Pol) || (bo.Op == token.NEQ && !g.Pol)) {
-					continue
+					return false
 				}
 				if wc, ok := bo.X.(*ssa.Call); ok && isCallNamed(wc, "peer", "write") {
 					if sl := litOf(wc.Call.Args[1]); sl != nil && sl.Type == msg {
-						wrote = true
+						return true
 					}
 				}
-			}
+				return false
+			}, 0)
 			if !wrote {
 				r.Fail("R1", key, c.Pos(), "the store amUnchoking=%d is not dominated by a successful write of %s: the flag says one thing and the peer was told another", v, msg)
 				continue
